@@ -34,31 +34,36 @@ CHECKS = {
                 note=MQ_NOTE),
     'C04': dict(level='exploration', ref='DESIGN.md 4 C04',
                 text='A synchronized consumer stalls inside process() for 20-60 virtual seconds at a drawn frame (sole '
-                     'consumer / one of several / behind relays); for every publisher-consumer pair and every interval '
-                     'without requests the publishes are bounded by requests still dequeued + 1 and by 9 in absolute terms '
-                     'until the connection timeout.', note=MQ_NOTE),
+                     'consumer / one of several / behind relays, relays optionally with sources_timeout, publishers '
+                     'optionally bound on two addresses); for every publisher-consumer pair and every interval without '
+                     'requests the publishes are bounded by requests still dequeued + 1 and by 9 in absolute terms until '
+                     'the connection timeout, and the publishers further upstream through synchronized relays by '
+                     '9*(depth+1).', note=MQ_NOTE),
     'C05': dict(level='exploration', ref='DESIGN.md 4 C05',
                 text='Synchronized backbone plus ? / ?? listeners that are slow, stalled or killed (incl. the A..G '
                      'ephemeral-rejoin topology): backbone sequences equal the reference model, steady-state inter-arrival '
                      'gaps stay below G < connection timeout, ?? listeners own no request socket and send nothing, '
                      'ephemeral sets are complete and non-decreasing.', note=MQ_NOTE),
     'C06': dict(level='fault_enumeration', ref='DESIGN.md 4 C06',
-                text='One fault class per run (kill+restart of each filter with restart delay 0 / 200 ms / 1.4x timeout, '
-                     'stall or silent death of a non-required consumer, death and return of a required one) at drawn '
-                     'scheduling steps: progress at every live synchronized node within the bound H after the fault ends, '
+                text='One fault class per run (kill+restart or graceful restart of each filter with restart delay 0 / '
+                     '200 ms / 1.4x timeout, stall or silent death of a non-required consumer, death and return of a '
+                     'required one) at drawn scheduling steps, early or after 9-16 s of uptime, in chain / tee / join / '
+                     'balance / ephemeral-rejoin topologies with ? and ?? listeners: progress at every live synchronized node within the bound H after the fault ends, '
                      'no later gap beyond H, ordering oracle armed, publisher silent while a required output is dead.',
                 note=MQ_NOTE + ' Kill points are sampled (virtual time + step offset), not swept exhaustively.'),
     'C07': dict(level='exploration', ref='DESIGN.md 4 C07',
-                text='Balanced split over 2-4 workers of drawn speeds and balanced rejoin, optional ?? watchers: on the wire '
-                     'each id leaves through exactly one output socket; at the rejoin single-source sets, strictly '
-                     'increasing ids, no frame twice.', note=MQ_NOTE),
+                text='Balanced split over 2-4 workers of drawn speeds and balanced rejoin (optionally forwarding and '
+                     'decimating), optional ?? watchers, and a profile with graceful and hard restarts of workers, splitter '
+                     'and rejoin: on the wire each id leaves through exactly one output socket; at the rejoin single-source '
+                     'sets, strictly increasing ids, no frame twice, no crash of the rejoin.', note=MQ_NOTE),
     'C08': dict(level='fault_enumeration', ref='DESIGN.md 4 C08',
                 text='One ending cause per run (exit()/exception at init/setup/k-th process/shutdown, injected socket error '
                      'on send/recv, stop event, exit_after in three forms) at a drawn filter of chain/tee/rejoin with drawn '
                      'propagate/obey policies per filter: lifecycle automaton, socket census, stop event, outcome, and exit '
                      'propagation against a BFS model of the policies, exit_after timing.',
                 note=MQ_NOTE + ' Cause x policy x position space is sampled by seed (quick 1.5k runs), not enumerated. Two '
-                     'open known findings (filters deaf to announcements while blocked on the other channel).'),
+                     'open known findings (filters deaf to announcements while blocked on the other channel); neighbours of '
+                     'the ending filter may run with loop_exc=False.'),
     'C10': dict(level='exploration', ref='DESIGN.md 4 C10',
                 text='Seeded operation histories (plus exhaustive enumeration to depth 3 quick / 4 thorough over a reduced '
                      'alphabet) on the real Frame class against an executable reference model of pixels, aliasing, '
@@ -69,7 +74,8 @@ CHECKS = {
     'C13': dict(level='exploration', ref='DESIGN.md 4 C13',
                 text='One writer, 1-2 readers, an external deleter and a stepping wall clock over a simulated file system; '
                      'seeded operation histories (write with given/equal/backward timestamps, read, read_block, seek, tell, '
-                     'refresh, close/reopen, external delete, clock steps) in all four modes against a list model of '
+                     'refresh, close/reopen, external delete, clock steps; text records with \\r, \\x85, U+2028 and '
+                     'multi-byte characters) in all four modes against a list model of '
                      '(file, offset, record): exactly-once in order except for whole deleted files, disk budget, newest '
                      'file kept, no overwrite of an existing file. Thorough adds file-system-call-granularity interleaving '
                      'of writer and reader under the scheduler.',
@@ -87,17 +93,19 @@ CHECKS = {
     'C15': dict(level='exploration', ref='DESIGN.md 4 C15',
                 text='Each of the 10 filter classes runs its real constructor, normalize_config, init (simulated network, '
                      'real lineage START) and - for Filter, Util, VideoIn, VideoOut, ImageIn - real setup/process with stubbed '
-                     'external I/O, on normal and fault paths, with a credentialed URI at a drawn configuration position; two '
+                     'external I/O, on normal and fault paths (exception at setup / process, optionally quoting the URI, '
+                     'optionally swallowed by loop_exc=False), with a credentialed URI at a drawn configuration position; two '
                      'run-unique password tokens must not occur in any log record, wire frame or lineage event. Part of this '
                      'is input sampling (the quantifier ranges over configurations); the simulator contributes the observation '
                      'of everything emitted on normal and fault paths.',
                 note='vidgear, uvicorn, MQTT broker and the real file system are stubs; Recorder/ImageOut/MQTTOut/REST/Webvis '
-                     'run stub setup/process. Ten open known findings (leak sites not repaired).'),
+                     'run stub setup/process. Open known findings (leak sites not repaired): DESIGN.md 12.2, known_findings.json.'),
     'C18': dict(level='exploration', ref='DESIGN.md 4 C18',
                 text='Every ending of C08 with the real OpenFilterLineage attached (capturing client), its heartbeat thread '
                      'a scheduler task so that every Event/Lock/emit interleaving with the run thread is a seeded choice, '
-                     'heartbeat interval 1-10 s against run lengths 0.3x-8x: START . RUNNING* . exactly one terminal, one '
-                     'run id, COMPLETE iff clean.', note=MQ_NOTE + ' OpenLineage transport is a capturing stub.'),
+                     'heartbeat interval 1-10 s against run lengths 0.3x-8x, backend latency 0-700 ms and (a third of the '
+                     'runs) a backend whose answers get lost (event delivered, emit() raises): START . RUNNING* . exactly '
+                     'one terminal, one run id, COMPLETE iff clean.', note=MQ_NOTE + ' OpenLineage transport is a capturing stub.'),
 }
 
 NOT_APPLICABLE = {
